@@ -43,12 +43,15 @@ const (
 )
 
 var (
-	srvIP    netip.Addr
-	hop      *net.UDPConn // "previous hop" / border router socket of the harness
-	app      *net.UDPConn // another end-host application (forwarding target) on the SCION destination host
-	app30041 *net.UDPConn // end-host port on the destination host: nothing may ever be forwarded there
-	zeroKey  = make([]byte, 16)
-	seq      uint32
+	fwdSeq      uint64
+	fwdExpected = map[uint64]bool{}
+	fwdCount    = map[uint64]int{}
+	srvIP       netip.Addr
+	hop         *net.UDPConn // "previous hop" / border router socket of the harness
+	app         *net.UDPConn // another end-host application (forwarding target) on the SCION destination host
+	app30041    *net.UDPConn // end-host port on the destination host: nothing may ever be forwarded there
+	zeroKey     = make([]byte, 16)
+	seq         uint32
 )
 
 func TestMain(m *testing.M) {
@@ -207,20 +210,20 @@ func probe(raw []byte, toPort int) (replies [][]byte, lost bool) {
 // ---------------------------------------------------------------- cases
 
 type pcase struct {
-	Payload   string        `json:"payload"` // "ntp" | "echo" | "traceroute" | "udp-other-port" | "udp-to-30041"
-	Arrival   string        `json:"arrival"` // "service" | "endhost"
-	SrcFam    string        `json:"src_family"`
-	DstFam    string        `json:"dst_family"`
-	SrcIA     uint64        `json:"src_ia"`
-	DstIA     uint64        `json:"dst_ia"`
-	Path      wire.PathSpec `json:"path"`
-	SrcPort   uint16        `json:"src_port"`
-	SPAO      string        `json:"spao"`     // "none" | "valid" | "mac-bit" | "covered-byte" | "other-spi" | "other-algo" | "server-spi" | "meta-bit"
-	Bit       int           `json:"bit"`      // which bit / byte to disturb
-	HBH       bool          `json:"hbh"`
-	EchoLen   int           `json:"echo_len"`
-	ID, Seq   uint16
-	Fill      uint64        `json:"fill"`
+	Payload string        `json:"payload"` // "ntp" | "echo" | "traceroute" | "udp-other-port" | "udp-to-30041"
+	Arrival string        `json:"arrival"` // "service" | "endhost"
+	SrcFam  string        `json:"src_family"`
+	DstFam  string        `json:"dst_family"`
+	SrcIA   uint64        `json:"src_ia"`
+	DstIA   uint64        `json:"dst_ia"`
+	Path    wire.PathSpec `json:"path"`
+	SrcPort uint16        `json:"src_port"`
+	SPAO    string        `json:"spao"` // "none" | "valid" | "mac-bit" | "covered-byte" | "other-spi" | "other-algo" | "server-spi" | "meta-bit"
+	Bit     int           `json:"bit"`  // which bit / byte to disturb
+	HBH     bool          `json:"hbh"`
+	EchoLen int           `json:"echo_len"`
+	ID, Seq uint16
+	Fill    uint64 `json:"fill"`
 }
 
 func hostAddr(fam string, v4 netip.Addr, fill uint64) netip.Addr {
@@ -255,6 +258,17 @@ func checkCase(t failer, c pcase) (labels []string) {
 	body := make([]byte, c.EchoLen)
 	for i := range body {
 		body[i] = byte(c.Fill>>(8*uint(i%8))) ^ byte(i)
+	}
+	// UDP payloads for the forwarding branch carry a unique tag so that a copy delivered late (after this case's
+	// collection window) is attributed to the probe it belongs to
+	var tag uint64
+	if len(c.Payload) > 3 && c.Payload[:3] == "udp" {
+		if len(body) < 8 {
+			body = append(body, make([]byte, 8-len(body))...)
+		}
+		fwdSeq++
+		tag = fwdSeq
+		binary.BigEndian.PutUint64(body, tag)
 	}
 	switch c.Payload {
 	case "ntp":
@@ -329,22 +343,43 @@ func checkCase(t failer, c pcase) (labels []string) {
 	if c.Arrival == "endhost" {
 		toPort = scion.EndhostPort
 	}
-	drain(app)
 	drain(app30041)
 	replies, lost := probe(raw, toPort)
 	if lost {
 		t.Fatalf("after %s the following well-formed request on the same socket pair was not answered (6 attempts)", describe(c))
 	}
-	// forwarded copies
+	// forwarded copies (attributed by tag; a copy of an earlier probe may arrive late)
+	wantFwdNow := tag != 0 && c.Arrival == "endhost" && c.Payload == "udp-other-port" && (dst == netlab.Addr(3) || c.DstFam == "v4-mapped")
+	if tag != 0 {
+		fwdExpected[tag] = wantFwdNow
+	}
 	var fwd [][]byte
 	buf := make([]byte, 16384)
+	wait := 3 * time.Millisecond
+	if wantFwdNow {
+		wait = 400 * time.Millisecond
+	}
+	deadline := time.Now().Add(wait)
 	for {
-		app.SetReadDeadline(time.Now().Add(2 * time.Millisecond))
+		app.SetReadDeadline(deadline)
 		n, _, err := app.ReadFromUDP(buf)
 		if err != nil {
 			break
 		}
-		fwd = append(fwd, bytes.Clone(buf[:n]))
+		d := bytes.Clone(buf[:n])
+		var dtag uint64
+		if f, err := wire.Parse(d); err == nil && f.IsUDP && len(f.UDP.Payload) >= 8 {
+			dtag = binary.BigEndian.Uint64(f.UDP.Payload)
+		}
+		fwdCount[dtag]++
+		if dtag == tag && tag != 0 {
+			fwd = append(fwd, d)
+			deadline = time.Now().Add(3 * time.Millisecond) // short grace period for a duplicate
+			continue
+		}
+		if exp, known := fwdExpected[dtag]; !known || !exp || fwdCount[dtag] > 1 {
+			t.Fatalf("%s: a datagram of an earlier probe (tag %d, forwarding expected=%v, copy #%d) reached the other application", describe(c), dtag, exp, fwdCount[dtag])
+		}
 	}
 	app30041.SetReadDeadline(time.Now().Add(time.Millisecond))
 	if n, _, err := app30041.ReadFromUDP(buf); err == nil {
@@ -427,7 +462,11 @@ func checkCase(t failer, c pcase) (labels []string) {
 			return append(labels, "not-forwarded")
 		}
 		if len(fwd) != 1 {
-			t.Fatalf("%s: forwarded %d times, expected once", describe(c), len(fwd))
+			var hs []string
+			for _, f := range fwd {
+				hs = append(hs, hex.EncodeToString(f))
+			}
+			t.Fatalf("%s: forwarded %d times, expected once: %v (sent %s)", describe(c), len(fwd), hs, hex.EncodeToString(raw))
 		}
 		f, err := wire.Parse(fwd[0])
 		if err != nil || !f.IsUDP {
@@ -652,7 +691,11 @@ func TestPropEndToEnd(t *testing.T) {
 			relay.mutRsp = flip
 		}
 		relay.mu.Unlock()
-		ctx, cancel := context.WithTimeout(context.Background(), 250*time.Millisecond)
+		dl := 250 * time.Millisecond
+		if tamper == "none" {
+			dl = 2 * time.Second
+		}
+		ctx, cancel := context.WithTimeout(context.Background(), dl)
 		local := udp.UDPAddr{IA: lIA, Host: netlab.UDPAddr(netlab.Addr(1), 0)}
 		remote := udp.UDPAddr{IA: rIA, Host: netlab.UDPAddr(srvIP, svcPort)}
 		_, off, merr := client.MeasureClockOffsetSCION(ctx, c.Log, []*client.SCIONClient{c}, local, remote, []snet.Path{sp})
